@@ -1194,11 +1194,13 @@ def main():
     import frame2lean  # Frame: size, the two encoders, close payloads
     import fsock2lean  # FrameSocket: the public wrapper around the codec
     import inc2lean    # IncompleteMessage: size guard, text/binary dispatch
+    import resp2lean   # write_response: serialisation of the server's answer
     gens = GENERATORS + [('Ctx.lean', ctx2lean.gen_ctx), ('CodecGen.lean', codec2lean.gen_codec),
                          ('HsGen.lean', hs2lean.gen_hs), ('CollGen.lean', coll2lean.gen_coll),
                          ('FrameGen.lean', frame2lean.gen_frame),
                          ('FsockGen.lean', fsock2lean.gen_fsock),
-                         ('IncGen.lean', inc2lean.gen_inc)]
+                         ('IncGen.lean', inc2lean.gen_inc),
+                         ('RespGen.lean', resp2lean.gen_resp)]
     for name, fn in gens:
         try:
             text = fn(repo)
